@@ -293,7 +293,13 @@ func (vNetErr) Timeout() bool   { return false }
 func (vNetErr) Temporary() bool { return false }
 
 func vstubReadHeader(r io.Reader, p []byte) (frameHeader, error) { return vHead, vHeadErr }
+// vGiveUpDuringBody: the caller of this call may time out / be cancelled while the body is being read
+var vGiveUpDuringBody *callReq
+
 func vstubReadFrame(f *framer, r io.Reader, head *frameHeader) error {
+	if c := vGiveUpDuringBody; c != nil && !vIsClosed(c.timeout) && vBool("caller_gives_up_while_the_body_is_read") {
+		close(c.timeout)
+	}
 	switch vBodyResult {
 	case 1:
 		return vNetErr{}
@@ -340,7 +346,9 @@ func vh_recv() {
 		ctx.err = context.Canceled
 	}
 	wasClosed := c.closed
+	vGiveUpDuringBody = c1
 	err := c.recv(ctx)
+	vGiveUpDuringBody = nil
 
 	s := vHead.stream
 	sent1, sent2 := vSentOn(c1.resp), vSentOn(c2.resp)
@@ -357,6 +365,11 @@ func vh_recv() {
 		vAssert(id == s && s == k1 && vIsClosed(c1.timeout) && sent1 == 0, "C01/recv/releases-only-the-abandoned-call-of-that-stream")
 	}
 	vAssert(len(vClears) <= 1, "C06/recv/releases-at-most-once")
+	// C06: the response for call 1 was received completely (header and body) and its caller had given up
+	// (before the header, or while the body was read): nobody else will release the id, recv must
+	if !wasClosed && vHeadErr == nil && s == k1 && err == nil && vBodyResult == 0 && sent1 == 0 && vIsClosed(c1.timeout) && ctx.err == nil {
+		vAssert(len(vClears) == 1 && vClears[0] == k1, "C06/recv/response-for-an-abandoned-call-releases-its-stream")
+	}
 	if !wasClosed && vHeadErr == nil && s > 0 && s <= n {
 		// the addressed entry is removed, the other one stays
 		if s == k1 {
